@@ -127,6 +127,11 @@
 //!              same-pattern guarded arms → one if-else chain; `Cx::range_capture` (`let x = match .. { .. => &mut
 //!              p[a..b], .. }`); `.into()` / `?` through selected `From` impls; `Result::unwrap()`; `break` / `continue`
 //!              in value position
+//!   stage 13   (netcode crypto) `renetcode/src/crypto.rs` itself (group NcCrypto): `let (a, b) = place.split_at_mut(mid)` (two
+//!              `Place::Range` aliases of `place`, bounds-checked once), a `let` that shadows an alias in its own scope; the
+//!              RustCrypto calls are builtins of `Base/RustSemCrypto.lean` (imported by the groups that use them) over
+//!              `[RustSem.Aead]`; callers in other files keep the hand-written `RustSem.encrypt_in_place` … builtins
+//!              (`Cx::find_fn`), proved equal to the translation in `Props/SrcTieNcCrypto.lean`
 //!   not supported: valued `break`, closures other than the pure `map` / `or_insert_with` ones, generics, traits, signed integers, floats,
 //!              references stored in data, `ref mut`, `&mut` parameters other than `self`, unsigned integers and the
 //!              octets / io cursors.
@@ -253,7 +258,7 @@ fn main() {
                 continue;
             }
             if let Some(Ok((body, imports))) = result.groups.get(gname) {
-                let direct = body.contains("RustSem.encrypt_in_place") || body.contains("RustSem.dencrypted_in_place");
+                let direct = body.contains("RustSem.encrypt_in_place") || body.contains("RustSem.dencrypted_in_place") || uses_rustcrypto(body);
                 let via = imports.iter().any(|im| im.rsplit('.').next().map(|g| aead.contains(g)).unwrap_or(false));
                 if direct || via {
                     aead.insert(gname.clone());
@@ -273,6 +278,10 @@ fn main() {
                 t.push_str(&format!("-- GENERATED by /verif/translator (group {}) from the Rust sources — do not edit\n", gname));
                 t.push_str("-- regenerate: translator --repo <repo root> --out-dir <directory of this file>\n");
                 t.push_str("import RenetVerif.Base.RustSem\n");
+                if uses_rustcrypto(body) {
+                    // the RustCrypto interface of renetcode/src/crypto.rs (group NcCrypto): a separate file of primitives
+                    t.push_str("import RenetVerif.Base.RustSemCrypto\n");
+                }
                 for im in imports {
                     t.push_str(&format!("import {}.{}\n", prefix, im));
                 }
@@ -330,6 +339,13 @@ fn main() {
     if any_failed {
         exit(1);
     }
+}
+
+/// does the group body call the RustCrypto builtins (`globals::register_builtins`) that live in `Base/RustSemCrypto.lean`?
+fn uses_rustcrypto(body: &str) -> bool {
+    ["RustSem.ChaCha20Poly1305.", "RustSem.XChaCha20Poly1305.", "RustSem.Key.", "RustSem.Tag.", "RustSem.Nonce.", "RustSem.XNonce."]
+        .iter()
+        .any(|m| body.contains(m))
 }
 
 fn sel_text(s: &manifest::Sel) -> String {
